@@ -7,20 +7,28 @@ CHECK = Check(
     rule=("generated inspectors of the model's emit units x value variants x every path of Gen/EnumVal.v (resolving paths to every "
           "node, unknown field / absent key / index -1,len,len+1,huge / unparsable / nil pointer / past-scalar variants) x iterator "
           "scripts (key wanted, not wanted, alternating; all None, all Continue, Break at every position and beyond the end, mixed) "
-          "for paths that denote a collection, one script otherwise; plus one raw-trace case per collection path; "
+          "for paths that denote a collection, one script otherwise; plus one raw-trace case per collection path; plus HISTORIES "
+          "of Loop calls that share one caller-owned key buffer (nil, empty or pre-filled): for every non-empty collection A of "
+          "every value (string keys made longer than any rendered key) Loop A, Loop B, Loop A with B a collection whose keys are "
+          "put into the buffer in another way (classes string / slice index / int / uint / float / bool; after a string-keyed A "
+          "every other class, otherwise a string-keyed B and one other class in rotation; B in the same object when it has one, "
+          "else in a partner object of another unit), the first call under a rotation of the control patterns (Break at every "
+          "position), the demand checked for every call and every reported key looked up natively in the collection; "
           "distinct = distinct input text."),
     assumptions=["map iteration order is an oracle: rounds of map loops are compared as sorted multisets; under Break only the number of "
                  "rounds and their membership in the full iteration are compared",
                  "float keys stay on the exact-decimal domain of render_float (the case generator uses 1.5 and 2)",
                  "key texts are read back like the generated code reads path segments (strconv.ParseInt/ParseUint base 0, ParseFloat)",
-                 "argument form p only (other forms belong to C12); the buffer pointer handed to Loop is non-nil"],
+                 "argument form p only (other forms belong to C12); the buffer pointer handed to Loop is non-nil",
+                 "histories: map keys and strings of the harness objects are run-time (heap) strings, as keys read from input are; "
+                 "the key buffer is not a component of the model's state (Model/ApiSeq.v)"],
 )
 
 MANIFEST = {
     "category": "proof",
     "text": ("Rocq model of the code emitted by writeNode(modeLoop) and the Loop header (structural recursion on the node tree; iterator "
              "as a script; trace of RequireKey/SetKey/SetVal/Iterate calls; map order as an oracle) with theorems by induction on "
-             "the node and on the element list. Correspondence: the extracted model predicts, and the navigation spec judges, every "
+             "the node and on the element list, and on the length of a history of Loop calls over a store of objects. Correspondence: the extracted model predicts, and the navigation spec judges, every "
              "case the real generated Loop methods are run on with a recording iterator."),
     "note": ("Trusted: Coq kernel, extraction, Go harness (reflection value builder, recording iterator), Go compiler. The model is tied "
              "to the generator only through the generated inspectors' behaviour on the enumerated units. No axioms."),
